@@ -38,7 +38,7 @@ Bind(v, F(_)) == CHOOSE r \in {F(q) : q \in {v}} : TRUE
 
 \* ---- measurement slots = what create_measurement can address on the template ---------------------------------------
 \* A slot is an INTEGER: its position in the canonical creation order of a full set (per bus v, p, q; then per branch
-\* and end p, q, i).  (Sets of integers instead of sets of records: TLC evaluates the predicates 100x faster.)
+\* and end p, q, i).  (Sets of integers instead of sets of records keep the predicates cheap for TLC.)
 MtIx(mt) == CASE mt = "v" -> 0 [] mt = "p" -> 1 [] mt = "q" -> 2          \* bus slots: v, p, q
 BrIx(mt) == CASE mt = "p" -> 0 [] mt = "q" -> 1 [] mt = "i" -> 2          \* branch-end slots: p, q, i
 BusSlot(mt, b) == 3 * b + MtIx(mt) + 1
